@@ -49,6 +49,8 @@ def gen_program(r, i):
         stmts.append(programs.LOG("e%d" % j, convert_expr(t)))
     stmts.append(("call", programs.V("println"), [("pos", programs.S("out: é 'q' \"d\" # not a comment"))]))
     stmts.append(programs.LOG("odd-chars", programs.S(r.choice(["a\x0cb", "x\x0by", "p\x85q", "l\u2028s", "r\r\nn", "fs\x1cgs\x1d", "t\tt"]))))
+    # characters with a compatibility decomposition (a normalisation of the source would rewrite them, an escape not)
+    stmts.append(programs.LOG("compat-chars", programs.S(r.choice(["\xbd cup", "5 \xb5m", "m\xb2", "a\xa0b", "\xaa\xba\xb9\xb3", "\xbc\xbe", "\xb4\xa8\xb8"]))))
     # backslashes next to letters that are escape letters, and ints that need more than 64 bits (any spelling)
     stmts.append(programs.LOG("backslashes", programs.S(r.choice(["C:\\temp\\new", "a\\nb", "\\x41", "\\\\n", "tab\\there", "\\", "q\\'r", "\\r\\n"]))))
     stmts.append(programs.LOG("wide-ints", ("list", [programs.I(r.choice([2**64, 2**64 + 1, 2**80, 2**63, 2**100 + 5, 18446744073709551615])), programs.I(r.choice([2**31, 2**32, 2**53 + 1]))])))
